@@ -128,7 +128,12 @@ def run(chk):
         m = int(rng.integers(2, 9))
         lams = np.array([rate() * (-1 if rng.random() < 0.15 else 1) for _ in range(m)])
         shape = str(rng.choice(["vector", "matrix", "list"]))
-        arg = lams.tolist() if shape == "list" else (lams.reshape(1, -1) if shape == "matrix" else lams)
+        if rng.random() < 0.25:            # integer-typed rates (vectors, 1 x m and m x 1 matrices, lists of ints)
+            lams = np.array([float(rng.integers(0, 60)) * (-1 if rng.random() < 0.15 else 1) for _ in range(m)])
+            shape = str(rng.choice(["int_vector", "int_matrix", "int_column", "int_list"]))
+        arg = {"list": lambda: lams.tolist(), "matrix": lambda: lams.reshape(1, -1), "vector": lambda: lams,
+               "int_vector": lambda: lams.astype(np.int64), "int_matrix": lambda: lams.astype(np.int64).reshape(1, -1),
+               "int_column": lambda: lams.astype(np.int64).reshape(-1, 1), "int_list": lambda: [int(x) for x in lams]}[shape]()
         with PmfSpy() as spy:
             out = np.asarray(poisson_entropy(arg), dtype=float)
         K = len(spy.calls)
@@ -169,7 +174,12 @@ def run(chk):
         if rng.random() < 0.3:
             C = (C + C.T) / 2
         C[np.diag_indices(n)] = [rate() * (-1 if rng.random() < 0.2 else 1) for _ in range(n)]
-        arg = C if rng.random() < 0.7 else np.matrix(C)
+        if rng.random() < 0.2:             # integer-valued covariance-like matrices, passed with an integer dtype
+            C = rng.integers(-3, 9, (n, n)).astype(float)
+            arg = C.astype(np.int64)
+            chk.count("joint.integer_dtype")
+        else:
+            arg = C if rng.random() < 0.7 else np.matrix(C)
         out = float(poisson_joint_entropy(arg))
         hs = [float(np.asarray(poisson_entropy(float(C[i, i]))).reshape(-1)[0]) for i in range(n)]
         exp = sum(hs) + sum(C[i, j] for i in range(n) for j in range(i + 1, n))
